@@ -98,7 +98,7 @@ fn cell<R: RoleType>(pkt_v5: bool, role_ok: bool, rule: u8, own_id: bool, id: u1
     }
     c.is_client = R::IS_CLIENT;
     if own_id {
-        c.pid_man.register_id(id).unwrap();
+        use_ids(&mut c, &[id]);
     }
     // the same identifier value is also an inbound exchange in progress
     c.qos2_publish_handled.insert(id);
